@@ -377,6 +377,17 @@ def rule_cache_invalidation(ctx):
             for fl in flags:
                 if safe:
                     consumers.setdefault(fl, {})[enum] = (safe[0], refuses, f)
+        # the same decision hoisted into a local (const int recalc = safe_mode || flag): reads anywhere in part1
+        allmem = [_canon_member(x) for x in walk(cfront.body(fn)) if x.get('kind') == 'MemberExpr']
+        allmem = [m for m in allmem if m]
+        fl_any = [m for m in allmem if _re.search(r'recalculate_\w+_this_timestep$', m) and 'coordinates' in m]
+        sf_any = [m for m in allmem if m.endswith('.safe_mode')]
+        for fl in fl_any:
+            if sf_any and enum not in consumers.get(fl, {}):
+                # only reads count: the flag must occur outside the left side of an assignment
+                lhs = {id(strip(e['inner'][0])) for e in walk(cfront.body(fn)) if cfront.is_assign(e)}
+                if any(x.get('kind') == 'MemberExpr' and _canon_member(x) == fl and id(x) not in lhs for x in walk(cfront.body(fn))):
+                    consumers.setdefault(fl, {})[enum] = (sf_any[0], refuses, f)
     anchor(len(consumers) >= 2 and sum(len(v) for v in consumers.values()) >= 3, 'integrators that read a recalculate_coordinates flag next to safe_mode in part1')
     n = 0
     samples = []
@@ -475,9 +486,13 @@ def rule_frames(ctx):
     TO_DH, TO_IN = 'CALL:reb_integrator_mercurius_inertial_to_dh', 'CALL:reb_integrator_mercurius_dh_to_inertial'
     g = C.SCHEMES['mercurius'].groups
     opnames = set().union(*[g[k] for k in ('kick', 'jump', 'com', 'drift', 'encounter')])
+    RCRIT = 'set:r.ri_mercurius.recalculate_r_crit_this_timestep=1'
+    seqs = [seq for L in (1, 2, 3, 4) for seq in itertools.product(('step', 'sync'), repeat=L)]
+    # a request to recompute the critical radii alone (a particle was added or changed size) while a step is pending
+    seqs += [('step', RCRIT, 'step'), ('step', RCRIT, 'step', 'sync'), ('step', 'step', RCRIT, 'step'), ('step', RCRIT, 'sync', 'step'), (RCRIT, 'step', 'step')]
     for safe in (0, 1):
-        for L in (1, 2, 3, 4):
-            for seq in itertools.product(('step', 'sync'), repeat=L):
+        if True:
+            for seq in seqs:
                 it, _ = C.run('mercurius', {'r.ri_mercurius.safe_mode': safe, 'r.ri_mercurius.is_synchronized': 1,
                                             'r.ri_mercurius.recalculate_coordinates_this_timestep': 1}, seq)
                 n += 1
@@ -501,7 +516,7 @@ def rule_frames(ctx):
                     ctx.report('R09.6', 'mercurius:frames:safe%d:%s' % (safe, '-'.join(seq)), 'src/integrator_mercurius.c part1/part2/synchronize',
                                'call sequence %s with safe_mode=%d: %s (the conversion flag is not set where the frame changes)' % ('+'.join(seq), safe, bad))
                 # whenever the integrator claims to be synchronised, the particles must be in the inertial frame
-                if it.flags.get('r.ri_mercurius.is_synchronized') == 1 and frame != 'inertial' and 'step' in seq:
+                if _p(it.flags.get('r.ri_mercurius.is_synchronized')) == 1 and frame != 'inertial' and 'step' in seq:
                     ctx.report('R09.6', 'mercurius:frames:safe%d:%s:end' % (safe, '-'.join(seq)), 'src/integrator_mercurius.c',
                                'after %s the integrator is marked synchronised but the particles are left in heliocentric coordinates' % '+'.join(seq))
     samples.append('mercurius: %d call sequences' % n)
